@@ -561,3 +561,56 @@ Proof.
   split; [vm_compute; reflexivity|].
   split; [vm_compute; lia | vm_compute; reflexivity].
 Qed.
+
+(** Lock files without a live owner, in ANY state (the pre-made files of dead holders of the
+    decision table): stale by its timestamps => obtained by four own steps; empty or undecodable
+    and not modified for factor * interval => obtained by three own steps once the retries are
+    used up; younger => the waiter only sleeps the empty-retry time, it neither removes the file
+    nor fails. *)
+Theorem C08_stale_file_obtainable : forall c s i cr u w ec, file s = Some i -> content s i = FMeta cr u ->
+  is_stale c (now s) cr u = true -> cs s w = CTry ec ->
+  exists s4 ec', run c s [LTryCreate w; LOpenRead w; LRemove w; LTryCreate w] = Some s4 /\
+                 cs s4 w = CCreated ec' (nexti s) /\ file s4 = Some (nexti s) /\ now s4 = now s.
+Proof. exact stale_obtainable. Qed.
+Print Assumptions C08_stale_file_obtainable.
+
+Theorem C08_old_unreadable_file_obtainable : forall d s i w ec,
+  file s = Some i -> content s i = FEmpty \/ content s i = FGarbage ->
+  cs s w = CExists ec -> (retries (cfg_repo d) <= S ec)%nat ->
+  lock_stale_factor * lock_freshness_interval < now s - mtime s i ->
+  exists s3, run (cfg_repo d) s [LOpenRead w; LRemove w; LTryCreate w] = Some s3 /\
+             cs s3 w = CCreated (S ec) (nexti s) /\ file s3 = Some (nexti s) /\ now s3 = now s.
+Proof. intros d s i w ec. exact (old_unreadable_file_obtainable (cfg_repo d) s i w ec eq_refl). Qed.
+Print Assumptions C08_old_unreadable_file_obtainable.
+
+Theorem C08_young_unreadable_file_waited_for : forall d s i w ec,
+  file s = Some i -> content s i = FEmpty \/ content s i = FGarbage -> cs s w = CExists ec ->
+  (S ec < retries (cfg_repo d))%nat \/ now s - mtime s i <= lock_stale_factor * lock_freshness_interval ->
+  exists s1, step (cfg_repo d) s (LOpenRead w) = Some s1 /\
+             cs s1 w = CSleep (S ec) (now s + esleep (cfg_repo d)) /\ file s1 = file s.
+Proof. intros d s i w ec. exact (young_unreadable_file_waited_for (cfg_repo d) s i w ec eq_refl eq_refl). Qed.
+Print Assumptions C08_young_unreadable_file_waited_for.
+
+Theorem C08_free_lock_monitor_sound : forall c, free_ok c = true -> cinit c = None ->
+  existsb (fun e => (ekind e =? 2) || (ekind e =? 4) || (ekind e =? 6)) (cevents c) = false ->
+  forall o st, In o (cobs c) -> first_time (cevents c) 0 (otid o) = Some st -> free_for c o st = true ->
+  oout o = 0 /\ otime o - st <= free_prompt.
+Proof. exact free_ok_sound. Qed.
+Print Assumptions C08_free_lock_monitor_sound.
+
+(** the hypotheses of [C08_old_unreadable_file_obtainable] are met: a pre-made garbage file last
+    modified 30 s ago, a waiter that has read it seven times and is about to read it again *)
+Definition demo_garbage_wait : list label :=
+  [LStart 0 0; LTryCreate 0; LOpenRead 0]%nat ++
+  flat_map (fun _ => [LTick lock_empty_sleep; LWake 0; LTryCreate 0; LOpenRead 0]%nat) (seq 0 6) ++
+  [LTick lock_empty_sleep; LWake 0; LTryCreate 0]%nat.
+Example C08_old_unreadable_hypotheses_satisfiable :
+  exists s, run (cfg_repo d2) (init_state (Some FGarbage) (-1) (-30000000000)) demo_garbage_wait = Some s /\
+    file s = Some 0%nat /\ content s 0%nat = FGarbage /\ cs s 0%nat = CExists 7 /\
+    (retries (cfg_repo d2) <= 8)%nat /\
+    lock_stale_factor * lock_freshness_interval < now s - mtime s 0%nat.
+Proof.
+  eexists. split; [vm_compute; reflexivity|].
+  split; [reflexivity|]. split; [reflexivity|]. split; [reflexivity|].
+  split; [vm_compute; lia | vm_compute; reflexivity].
+Qed.
